@@ -70,7 +70,8 @@ def enum_decl(draw, name: str, max_bits: int = 31, item_names: Optional[st.Searc
     item_names = item_names if item_names is not None else pascal_ident
     n = draw(st.integers(1, max_items))
     names = draw(unique_names(item_names, n, n))
-    bits = draw(st.integers(1, max_bits))
+    # small widths (and the degenerate enum whose only value is 0) are as interesting as wide ones
+    bits = draw(st.sampled_from([b for b in (1, 1, 2, 3, 8) if b <= max_bits]) | st.integers(1, max_bits))
     hi = (1 << bits) - 1
     lo = (1 << (bits - 1)) if bits > 1 else 0
     top = draw(st.sampled_from([hi, lo]) | st.integers(lo, hi))
